@@ -8,6 +8,7 @@
 -/
 import GFO.Proofs.GridBackend
 import GFO.Props.C16
+import GFO.Props.LocalRuns
 namespace GFO.GridRuns
 open GFO
 
@@ -208,5 +209,262 @@ example : CfgOK exCfg 6 :=
   { geo := by decide, fits := by intro n hn; simp [exCfg] at hn; rcases hn with rfl | rfl <;> decide
     pos := by intro n hn; simp [exCfg] at hn; rcases hn with rfl | rfl <;> decide
     step := by decide, divides := by decide }
+
+end GFO.GridRuns
+
+/-! ### C01 / C02 for the complete grid optimizer, WITH constraints -/
+
+namespace GFO.GridRuns
+open GFO GFO.C01 GFO.LocalRuns
+
+theorem askFeas_spec {p : Pos} {tape rest : Tape} {ok : Bool} (h : askFeas p tape = .ok (ok, rest)) :
+    tape = Draw.feas p ok :: rest := by
+  unfold askFeas at h
+  split at h
+  · rename_i q ok' rest'
+    split at h
+    · simp at h
+    · rename_i hq
+      simp only [Except.ok.injEq, Prod.mk.injEq] at h
+      obtain ⟨h1, h2⟩ := h
+      have : q = p := by simpa using hq
+      subst h1 h2 this
+      rfl
+  · simp at h
+  · simp at h
+
+theorem decodeDiag_length (dims : List Nat) (p : Nat) : (decodeDiag dims p).length = dims.length := by
+  induction dims generalizing p with
+  | nil => rfl
+  | cons d ds ih =>
+    cases ds with
+    | nil => rfl
+    | cons d' ds' => simp only [decodeDiag, List.length_cons]; rw [ih]; rfl
+
+theorem decodeOrth_length (dims : List Nat) (p : Nat) : (decodeOrth dims p).length = dims.length := by
+  induction dims generalizing p with
+  | nil => rfl
+  | cons d ds ih => simp [decodeOrth, ih]
+
+theorem natVec_noNan (l : List Nat) : noNan (natVec l) = true := by
+  induction l with
+  | nil => rfl
+  | cons x xs ih =>
+    simp only [noNan, natVec, List.map_cons, List.any_cons, Bool.not_eq_true', Bool.or_eq_false_iff] at ih ⊢
+    exact ⟨rfl, ih⟩
+
+/-- what the grid theorems with constraints need: the configuration describes the space -/
+structure Fits (cfg : GridCfg) (sp : Space) : Prop where
+  geo : cfg.geo = sp.geo
+  dims : cfg.dims = sp.sizes
+  ok : SpaceOK sp
+
+/-- `conv2pos` of a decoded pointer, followed by a positive constraint check: a feasible position of the space -/
+theorem conv_then_feas {cfg : GridCfg} {sp : Space} {f : Pos → Bool} (hf : Fits cfg sp) {l : List Nat} (hl : l.length = cfg.dims.length)
+    {tape tape1 tape2 : Tape} {p : Pos} {ok : Bool} (ht : TapeOK sp f tape)
+    (h1 : conv2posT cfg.geo (natVec l) tape = .ok (p, tape1)) (h2 : askFeas p tape1 = .ok (ok, tape2)) :
+    tape2 <:+ tape ∧ InSpace sp p ∧ ok = f p := by
+  obtain ⟨hs1, horig, _⟩ := conv2posT_spec h1
+  have e := askFeas_spec h2
+  have hs2 : tape2 <:+ tape := (by rw [e]; exact List.suffix_cons _ _ : tape2 <:+ tape1).trans hs1
+  refine ⟨hs2, ?_, ht.feas p ok (hs1.subset (by rw [e]; simp))⟩
+  rcases horig with hp | ⟨hr, _⟩
+  · rw [hp, hf.geo]
+    exact clipped_inSpace hf.ok _ (by simp [natVec, hl, hf.dims, Space.sizes]) (natVec_noNan l)
+  · exact ht.rnd p hr
+
+theorem diagLoop_spec {cfg : GridCfg} {sp : Space} {f : Pos → Bool} (hf : Fits cfg sp) {d t fuel : Nat} {first : Bool} {ptr ptr' : Nat}
+    {tape rest : Tape} {p : Pos} (ht : TapeOK sp f tape)
+    (h : diagLoop cfg d t fuel first ptr tape = .ok (p, ptr', rest)) : rest <:+ tape ∧ InSpace sp p ∧ f p = true := by
+  induction fuel generalizing first ptr tape with
+  | zero => simp [diagLoop] at h
+  | succ n ih =>
+    unfold diagLoop at h
+    simp only [bind, Except.bind, pure, Except.pure] at h
+    split at h
+    · simp at h
+    · rename_i x hx
+      obtain ⟨q, tape1⟩ := x
+      simp only at h
+      split at h
+      · simp at h
+      · rename_i y hy
+        obtain ⟨ok, tape2⟩ := y
+        obtain ⟨hs, hin, hok⟩ := conv_then_feas hf (decodeDiag_length _ _) ht hx hy
+        simp only at h
+        split at h
+        · rename_i hokt
+          simp only [Except.ok.injEq, Prod.mk.injEq] at h
+          obtain ⟨e1, _, e3⟩ := h
+          subst e1 e3
+          exact ⟨hs, hin, by rw [← hok]; exact hokt⟩
+        · obtain ⟨a, b, c⟩ := ih (ht.suffix hs) h
+          exact ⟨a.trans hs, b, c⟩
+
+theorem zeros_inSpace {sp : Space} (h : SpaceOK sp) : InSpace sp (sp.sizes.map (fun _ => (0 : Int))) := by
+  unfold InSpace Space.sizes
+  have : ∀ (dims : List (List Rat)), (∀ d ∈ dims, 0 < d.length) →
+      inBox (dims.map List.length) ((dims.map List.length).map (fun _ => (0 : Int))) = true := by
+    intro dims
+    induction dims with
+    | nil => intro _; rfl
+    | cons d ds ih =>
+      intro hd
+      simp only [List.map_cons, inBox, Bool.and_eq_true, decide_eq_true_eq]
+      exact ⟨⟨by omega, by have := hd d (by simp); omega⟩, ih (fun x hx => hd x (by simp [hx]))⟩
+  exact this sp.dims (fun d hd => (h d hd).1)
+
+/-- every proposal of the complete grid optimizer is a feasible position of the space; the tape is only consumed -/
+theorem gridIterate_ok {cfg : GridCfg} {sp : Space} {f : Pos → Bool} (hf : Fits cfg sp) {s s' : GridSt} {p : Pos}
+    (ht : TapeOK sp f s.tape) (h : gridIterate cfg s = .ok (p, s')) :
+    s'.tape <:+ s.tape ∧ s'.initL = s.initL ∧ InSpace sp p ∧ f p = true := by
+  have key : ∃ s1, (match cfg.dir with
+      | .diagonal => diagIterate cfg s
+      | .orthogonal => orthIterate cfg s) = .ok (p, s1) ∧ s'.tape = s1.tape ∧ s'.initL = s1.initL := by
+    unfold gridIterate at h
+    cases hd : cfg.dir with
+    | diagonal =>
+      simp only [hd, bind, Except.bind, pure, Except.pure] at h ⊢
+      cases hm : diagIterate cfg s with
+      | error e => rw [hm] at h; simp at h
+      | ok x =>
+        rw [hm] at h
+        obtain ⟨q, s1⟩ := x
+        simp only [Except.ok.injEq, Prod.mk.injEq] at h
+        obtain ⟨e1, e2⟩ := h
+        subst e1 e2
+        exact ⟨s1, rfl, rfl, rfl⟩
+    | orthogonal =>
+      simp only [hd, bind, Except.bind, pure, Except.pure] at h ⊢
+      cases hm : orthIterate cfg s with
+      | error e => rw [hm] at h; simp at h
+      | ok x =>
+        rw [hm] at h
+        obtain ⟨q, s1⟩ := x
+        simp only [Except.ok.injEq, Prod.mk.injEq] at h
+        obtain ⟨e1, e2⟩ := h
+        subst e1 e2
+        exact ⟨s1, rfl, rfl, rfl⟩
+  obtain ⟨s1, hx, htape, hinit⟩ := key
+  rw [htape, hinit]
+  clear htape hinit h
+  · cases hd : cfg.dir with
+    | diagonal =>
+      simp only [hd] at hx
+      unfold diagIterate at hx
+      cases hdc : s.dirCalc with
+      | none =>
+        simp only [hdc, bind, Except.bind, pure, Except.pure] at hx
+        split at hx
+        · simp at hx
+        · rename_i y hy
+          obtain ⟨ok, tape1⟩ := y
+          have e := askFeas_spec hy
+          have hs1 : tape1 <:+ s.tape := by rw [e]; exact List.suffix_cons _ _
+          simp only at hx
+          split at hx
+          · rename_i hok
+            simp only [Except.ok.injEq, Prod.mk.injEq] at hx
+            obtain ⟨e1, e2⟩ := hx
+            subst e1 e2
+            refine ⟨hs1, rfl, ?_, ?_⟩
+            · rw [hf.dims]; exact zeros_inSpace hf.ok
+            · have := ht.feas (cfg.dims.map (fun _ => (0 : Int))) ok (by rw [e]; exact List.mem_cons_self)
+              rw [← this]; exact hok
+          · split at hx
+            · simp at hx
+            · rename_i z hz
+              obtain ⟨q', tape2⟩ := z
+              simp only [Except.ok.injEq, Prod.mk.injEq] at hx
+              obtain ⟨e1, e2⟩ := hx
+              subst e1 e2
+              obtain ⟨a, b, c⟩ := moveRandomLoop_spec hz
+              have ht1 := ht.suffix hs1
+              exact ⟨a.trans hs1, rfl, ht1.rnd _ b, (ht1.feas _ true c).symm⟩
+      | some d =>
+        simp only [hdc, bind, Except.bind, pure, Except.pure] at hx
+        split at hx
+        · simp at hx
+        · rename_i y hy
+          obtain ⟨q', ptr', tape'⟩ := y
+          simp only [Except.ok.injEq, Prod.mk.injEq] at hx
+          obtain ⟨e1, e2⟩ := hx
+          subst e1 e2
+          obtain ⟨a, b, c⟩ := diagLoop_spec hf ht hy
+          exact ⟨a, rfl, b, c⟩
+    | orthogonal =>
+      simp only [hd] at hx
+      unfold orthIterate at hx
+      simp only [bind, Except.bind, pure, Except.pure] at hx
+      split at hx
+      · simp at hx
+      · rename_i y hy
+        obtain ⟨q', tape1⟩ := y
+        simp only at hx
+        split at hx
+        · simp at hx
+        · rename_i z hz
+          obtain ⟨ok, tape2⟩ := z
+          obtain ⟨hs, hin, hok⟩ := conv_then_feas hf (decodeOrth_length _ _) ht hy hz
+          simp only at hx
+          split at hx
+          · rename_i hokt
+            simp only [Except.ok.injEq, Prod.mk.injEq] at hx
+            obtain ⟨e1, e2⟩ := hx
+            subst e1 e2
+            exact ⟨hs, rfl, hin, by rw [← hok]; exact hokt⟩
+          · split at hx
+            · simp at hx
+            · rename_i w hw
+              obtain ⟨q'', tape3⟩ := w
+              simp only [Except.ok.injEq, Prod.mk.injEq] at hx
+              obtain ⟨e1, e2⟩ := hx
+              subst e1 e2
+              obtain ⟨a, b, c⟩ := moveRandomLoop_spec hw
+              have ht2 := ht.suffix hs
+              exact ⟨a.trans hs, rfl, ht2.rnd _ b, (ht2.feas _ true c).symm⟩
+
+/-- C01 + C02 for one `search()` call of the complete grid optimizer under ANY constraint: every evaluated position is a
+    feasible position of the space (and the tape / start-up list invariant is kept, so the statement chains over calls) -/
+theorem C01_C02_grid_positions {cfg : GridCfg} {sp : Space} {obj : Obj} {c : Call} {f : Pos → Bool} {tape0 : Tape} {initL0 : List Pos}
+    {d d' : DState GridSt} {r : CallResult} (hf : Fits cfg sp) (ht : TapeOK sp f tape0)
+    (hi : ∀ q ∈ initL0, InSpace sp q ∧ f q = true) (hP : d.bst.tape <:+ tape0 ∧ d.bst.initL = initL0) (hn : 0 < c.nIter)
+    (h : searchCall (gridBackend cfg) sp obj c d = .ok (d', r)) :
+    (d'.bst.tape <:+ tape0 ∧ d'.bst.initL = initL0) ∧ ∀ p ∈ C04.newPos d d', InSpace sp p ∧ f p = true := by
+  obtain ⟨cs, d1, cs1, tr, _, hfin, T, hP1, hQ⟩ :=
+    searchCall_inv (P := fun d _ => d.bst.tape <:+ tape0 ∧ d.bst.initL = initL0) (Q := fun t => InSpace sp t.pos ∧ f t.pos = true)
+      (by
+        intro i d d1 cs cs1 p v e hp sf hb
+        rcases hb with ⟨_, s1, b1, b2⟩ | ⟨_, s0, s1, b0, b1, b2⟩
+        · have b1' : gridInitPos d.bst = .ok (p, s1) := b1
+          simp only [gridBackend, Except.ok.injEq] at b2
+          unfold gridInitPos at b1'
+          split at b1'
+          · rename_i q hq
+            simp only [Except.ok.injEq, Prod.mk.injEq] at b1'
+            obtain ⟨e1, e2⟩ := b1'
+            subst e1 e2
+            have hmem : q ∈ initL0 := by rw [← hp.2]; exact List.mem_of_getElem? hq
+            exact ⟨by rw [← b2]; exact hp, hi q hmem⟩
+          · simp at b1'
+        · have hs0 : s0 = d.bst := by
+            rcases b0 with b0 | b0
+            · exact b0
+            · simp only [gridBackend, Except.ok.injEq] at b0; exact b0.symm
+          subst hs0
+          simp only [gridBackend, Except.ok.injEq] at b2
+          obtain ⟨a, b, c', e'⟩ := gridIterate_ok hf (ht.suffix hp.1) (show gridIterate cfg d.bst = .ok (p, s1) from b1)
+          refine ⟨?_, c', e'⟩
+          rw [← b2]
+          exact ⟨by simpa [gridEvaluate] using a.trans hp.1, by simpa [gridEvaluate] using b.trans hp.2⟩)
+      h hn (fun _ _ => hP)
+  obtain ⟨_, hposL, _, _, _, _, _, _, _, _, hbst, _⟩ := finishSearch_ok hfin
+  refine ⟨by rw [hbst]; exact hP1, ?_⟩
+  intro p hp
+  unfold C04.newPos at hp
+  rw [hposL, T.posL] at hp
+  simp only [List.drop_left] at hp
+  obtain ⟨t, ht', rfl⟩ := List.mem_map.mp hp
+  exact hQ t ht'
 
 end GFO.GridRuns
